@@ -451,6 +451,16 @@ func pumpModel(family string, n int) *openfgav1.AuthorizationModel {
 			fmt.Fprintf(&sb, "    define r%d: [user, doc#r%d, doc#r%d]\n", i, i+1, min(i+2, n))
 		}
 		fmt.Fprintf(&sb, "    define r%d: [user]\n", n)
+	case "clique": // every relation a union of all the others: the number of elementary cycles explodes
+		for i := 0; i < n; i++ {
+			fmt.Fprintf(&sb, "    define r%d: [user]", i)
+			for j := 0; j < n; j++ {
+				if j != i {
+					fmt.Fprintf(&sb, " or r%d", j)
+				}
+			}
+			sb.WriteString("\n")
+		}
 	case "wideunion":
 		sb.WriteString("    define a: [user]\n    define w: a")
 		for i := 0; i < n; i++ {
